@@ -8,6 +8,8 @@
  *                       in process:   <status> | <count> <nranges> | <next> | <shift>
  *   fprobe HEX LIMIT [MS]  the same in a forked child under per-call limits (MS, default 2000, ms of CPU;
  *                       512 MiB of live heap); extra answers: `timeout`, `oom`, `crash <class>`
+ *   sprobe PHEX HEX LIMIT  hostlist_create(PHEX) first (a "poisoning" text), then probe HEX with errno and the
+ *                       stack left as that call left them (state carried from one library call to the next)
  *   create HEX          make HEX the current list:  ok <count> <nranges> | null <errno> <fatal>
  *   new                 current list := hostlist_create("")
  *   count | nranges | dump | hosts LIMIT | shift | pop | nth N | push HEX | find HEX |
@@ -201,12 +203,19 @@ static void __attribute__((noinline)) dirty_stack(void)
     __asm__ volatile("" : : "r"(junk) : "memory");
 }
 
+/* sprobe: the call under test runs in the state the PREVIOUS library call left behind (errno, the callee's
+ * stack frames, the allocator's free lists) -- what pdsh does between two -w / -x / file-line words: it never
+ * clears errno and never scrubs the stack between hostlist calls */
+static int keep_state = 0;
+
 static hostlist_t do_create(const char *expr)
 {
     hostlist_t h;
     fatal_class = "-";
-    dirty_stack();
-    errno = 0;
+    if (!keep_state) {
+        dirty_stack();
+        errno = 0;
+    }
     cur_text = expr;
     h = hostlist_create(expr);
     cur_text = NULL;
@@ -411,6 +420,7 @@ int main(int argc, char **argv)
     hostlist_t hl = NULL;
     hostlist_iterator_t its[NIT];
     struct sigaction sa;
+    int carried_errno = 0;
     (void) argc; (void) argv;
     memset(its, 0, sizeof(its));
     memset(&sa, 0, sizeof(sa));
@@ -420,12 +430,16 @@ int main(int argc, char **argv)
      * must not take earlier answers with it */
     setvbuf(stdout, NULL, _IOLBF, 1 << 16);
 
-    while (fgets(line, sizeof(line), stdin)) {
+    /* errno is carried from one op to the next as the LIBRARY left it (glibc's sscanf sets it to 0 at the end of
+     * its input; pdsh itself never clears errno between hostlist calls): `find N` / `delete_host N` run with
+     * whatever the previous library call left behind.  do_create() and `push` start from errno = 0. */
+    while (carried_errno = errno, fgets(line, sizeof(line), stdin)) {
         char op[32];
         long num = 0, num2 = 2000;
         int nf;
         a1[0] = 0;
         nf = sscanf(line, "%31s %s %ld %ld", op, a1, &num, &num2);
+        errno = carried_errno;
         if (nf < 1) { printf("bad-op\n"); continue; }
         if (!strcmp(op, "probe") || !strcmp(op, "fprobe")) {
             char *x = unhex(a1);
@@ -442,6 +456,36 @@ int main(int argc, char **argv)
                 free(out.p);
             }
             free(x);
+            continue;
+        }
+        if (!strcmp(op, "sprobe")) {
+            /* sprobe POISONHEX HEX LIMIT: hostlist_create(POISON) (+ shift + find of its first name + destroy),
+             * then the ordinary probe of HEX with NOTHING reset in between; the answer is the probe's */
+            static char a2[1 << 22];
+            char *x, *y;
+            hostlist_t ph;
+            struct sb out = { 0, 0, 0 };
+            long lim = 100000;
+            a2[0] = 0;
+            if (sscanf(line, "%*s %s %s %ld", a1, a2, &lim) < 2) { printf("bad-arg\n"); continue; }
+            x = unhex(a1);
+            y = unhex(a2);
+            live_bytes = 0;
+            cpu_limit(8000);
+            ph = do_create(x);
+            if (ph) {
+                char *first = hostlist_shift(ph);
+                if (first) { (void) hostlist_find(ph, first); hl_free(first); }
+                hostlist_destroy(ph);
+            }
+            keep_state = 1;
+            probe(y, lim, &out);
+            keep_state = 0;
+            cpu_limit(0);
+            puts(out.p);
+            free(out.p);
+            free(x);
+            free(y);
             continue;
         }
         if (!strcmp(op, "create") || !strcmp(op, "new")) {
